@@ -120,7 +120,8 @@ Step ==
        [] k \in {"Call", "Ret", "Open", "Flock", "Pwrite", "Close", "Unlink", "Access", "FileRead", "Suppressed", "Skip"} /\ ~OkDev(e) ->
             o' = o /\ Flag(<<"HarnessBadEvent">>)
        [] k = "Call" ->
-            /\ Flag(If(o.cur[e.d] # "none", "HarnessNestedCall"))
+            /\ Flag(If(o.cur[e.d] # "none", "HarnessNestedCall")
+                    \o If(e.op = "append" /\ o.u > 0 /\ e.nb % o.u # 0, "HarnessPacketNotCellAligned"))
             /\ o' = [o EXCEPT !.cur[e.d] = e.op,
                               !.setPath[e.d] = IF e.op = "set" THEN e.path ELSE o.setPath[e.d],
                               !.mkFail[e.d] = FALSE,
